@@ -100,8 +100,62 @@ class BuiltinMixin:
         return h(self, recv, args, kw, node)
 
     # ------------------------------------------------------------ core builtins
+    def resolve_seq(self, seq, depth=0):
+        """replace an atomic sequence by its definition if the path condition has an equation  atom == term"""
+        seq = z3.simplify(seq)
+        if depth > 4 or not z3.is_const(seq) or seq.decl().kind() != z3.Z3_OP_UNINTERPRETED:
+            return seq
+        for f in self.st.pc:
+            if z3.is_app(f) and f.decl().kind() == z3.Z3_OP_EQ and z3.is_seq(f.arg(0)):
+                a, b = f.arg(0), f.arg(1)
+                if a.eq(seq) and not b.eq(seq) and not (z3.is_const(b) and b.decl().kind() == z3.Z3_OP_UNINTERPRETED and depth > 2):
+                    return self.resolve_seq(b, depth + 1)
+                if b.eq(seq) and not a.eq(seq) and not z3.is_const(a):
+                    return self.resolve_seq(a, depth + 1)
+        return seq
+
+    def count_filtered(self, fn, seq, x, node=None):
+        """number of elements of a symbolic sequence satisfying a predicate: unfolded structurally; an atomic sequence gets an
+        uninterpreted count whose name is derived from the predicate applied to a generic element"""
+        seq = self.resolve_seq(seq)
+        k = seq.decl().kind() if z3.is_app(seq) else None
+        if k == z3.Z3_OP_SEQ_EMPTY:
+            return z3.IntVal(0)
+        if k == z3.Z3_OP_SEQ_UNIT:
+            p_ = self.truth(self.call_value(fn, [SV('ref', seq.arg(0), x)], {}, node))
+            return z3.If(p_, z3.IntVal(1), z3.IntVal(0))
+        if k == z3.Z3_OP_SEQ_CONCAT:
+            return z3.Sum(*[self.count_filtered(fn, c, x, node) for c in seq.children()])
+        import hashlib
+        # the count over an atomic sequence is an uninterpreted function named after the predicate: its source text plus the
+        # values of the names it captures (two textually equal predicates over equal captured values share the function)
+        f = fn.t
+        if f.node is None or not isinstance(f.node, ast.Lambda):
+            raise Unsupported('filter with a non-lambda predicate over a symbolic sequence')
+        params = {a.arg for a in f.node.args.args}
+        parts = [ast.unparse(f.node.body)]
+        for nm in sorted({n.id for n in ast.walk(f.node.body) if isinstance(n, ast.Name)} - params):
+            v = (f.closure or {}).get(nm)
+            if v is None:
+                v = self.frame.env.get(nm)
+            if v is None:
+                parts.append(f'{nm}=<global>')
+            elif v.k in ('obj', 'list', 'dict'):
+                parts.append(f'{nm}=#{v.t}')
+            elif z3.is_expr(v.t):
+                parts.append(f'{nm}={z3.simplify(v.t).sexpr()}')
+            else:
+                parts.append(f'{nm}={v.t!r}')
+        name = 'count_' + hashlib.sha1('|'.join(parts).encode()).hexdigest()[:12]
+        c = self.ufunc(name, SEQ, INT)(seq)
+        self.assume(c >= 0)
+        self.assume(c <= z3.Length(seq))
+        return c
+
     def bi_len(self, args, kw, node):
         a = args[0]
+        if a.k == 'filt':
+            return VI(self.count_filtered(a.t[0], a.t[1], a.t[2], node))
         if a.k in ('bytes', 'str', 'seq'):
             return VI(z3.Length(a.t))
         if a.k == 'tuple':
@@ -159,8 +213,11 @@ class BuiltinMixin:
     def bi_filter(self, args, kw, node):
         fn = args[0]
         src = args[1]
+        if src.k == 'list' and isinstance(self.st.heap[src.t], HSeqList):
+            h = self.st.heap[src.t]
+            src = SV('seq', h.seq, h.x)
         if src.k == 'seq':
-            raise Unsupported('filter over symbolic sequence (needs a contract/ghost abstraction)')
+            return SV('filt', (fn, src.t, src.x))
         out = []
         for v in self.iter_concrete(src):
             if self.branch(self.truth(self.call_value(fn, [v], {}, node))):
@@ -311,7 +368,7 @@ class BuiltinMixin:
         if not args:
             return SV('list', self.st.alloc(HList([])))
         a = args[0]
-        if a.k == 'seq':
+        if a.k in ('seq', 'filt'):
             return a
         return SV('list', self.st.alloc(HList(self.iter_concrete(a))))
 
@@ -444,8 +501,7 @@ class BuiltinMixin:
             h = self.st.heap[recv.t]
             if isinstance(h, HSeqList):
                 if name == 'append':
-                    e = args[0]
-                    h.seq = z3.Concat(h.seq, z3.Unit(e.t if e.k == 'ref' else self.as_int(e)))
+                    h.seq = z3.Concat(h.seq, z3.Unit(self.elem_code(args[0])))
                     return NONE
                 raise Unsupported(f'list.{name} on a list of symbolic length')
             if name == 'append':
@@ -632,4 +688,10 @@ class BuiltinMixin:
             r = f(x)
             self.assume(z3.Length(r) == (4 if fmt == '>f' else 8))
             return SV('bytes', r)
+        if fmt[0] == '>' and len(fmt) > 2 and all(('>' + ch) in B.STRUCT_INT for ch in fmt[1:]):
+            # several big-endian integer fields: one argument per field
+            if len(args) != len(fmt) - 1:
+                raise PyRaise('struct.error')
+            parts = [self.struct_pack('>' + ch, [a], node) for ch, a in zip(fmt[1:], args)]
+            return SV('bytes', z3.Concat(*[p_.t for p_ in parts]))
         raise Unsupported(f'struct format {fmt}')
